@@ -75,12 +75,13 @@ SPEC = dict(
     trusted_base=[
         "lean/Ecal/Model/Lexer.lean is a hand-written port of parser/lexer.go; its agreement with the Go lexer is tested on every run (this correspondence), not proved",
         "isSpace / isControl / isNumber / decodeRune of the model are hand copies of the Go tables (go1.23.5, Unicode 15.0.0); they are swept against unicode.IsSpace / IsControl / IsNumber / utf8.DecodeRune for U+0000-U+2FFF on every quick run and for every code point (incl. surrogates, out of range) on every thorough run (case kind U)",
-        "the EOF clause (EOF line = line of the end of input; stale Pos/column = known finding eof-stale-position) and the stale column VALUE after a # comment are evaluated on every case, not proved",
+        "the EOF token's stale Pos/column (known finding eof-stale-position) is evaluated on every case; its LINE (eof_line_true) and the stale column value after a # comment (stale_column_exact) are proved about the model",
         "comment tokens are exempt from 'Pos is the first character': their Pos is the first byte of the comment TEXT (what Val holds; the opener # or /* stands directly before it - proved); they are meta data and never reach an error or a break point",
         "errors_carry_token_pos is a syntactic source fact (go/ast: operands of the constructions and of the Sprintf calls), regenerated on every run; that the error names the OFFENDING token is checked by the planted-error cases (45 NewRuntimeError / 11 newParserError sites, 17 plants)",
     ],
-    assumptions=["sep cases: token lines are monotone along the token sequence, so the same-line-as-previous relation determines every "
-                 "line comparison the parser makes (parser.go: run, ndReturn, ndIdentifier, hasMoreStatements) - by reading, not proved",
+    assumptions=["sep cases: token lines never decrease along the token sequence (proved: lines_monotone), so the same-line-as-previous relation "
+                 "determines every line comparison the parser makes; that parser.go uses token lines only in such comparisons (run, ndReturn, "
+                 "ndIdentifier, hasMoreStatements) is by reading",
                  "the EOF token has no first character: the position asked for is the end of the input (the code's stale Pos/Lpos there is the known finding eof-stale-position); an EOF that follows an error token (the lexer has stopped) is compared between model and code only"],
     decode=decode,
 )
@@ -88,14 +89,15 @@ SPEC = dict(
 META = dict(
     technique="Lean 4 theorems over an executable port of the lexer + differential correspondence with parser.LexToList, parser.Parse and the interpreter",
     level_text=("Proof (about the executable lexer model, all inputs): every emitted non-EOF token carries the true line of its Pos, and the true "
-                "column unless the last newline before it ended a # comment (token_positions_true_partial; classifier of the known finding, negative "
-                "witness proved); Pos IS the token's first character - a non-blank rune, the token text stands there; comment tokens: first byte of "
-                "the comment text with the opener directly before it (token_starts_at_first_character, token_text_at_pos); the lexer always "
-                "terminates with EOF or an error token, no fuel runs out (lexer_always_closes); errors, messages, stack traces, the except object "
-                "and break point keys copy Lline/Lpos of one token (errors_carry_token_pos: go/ast fact regenerated on every run, Lean obligation). "
-                "Model tied to parser/lexer.go by an exhaustive-for-short / random-for-long differential run and a code point sweep; error "
-                "positions (fields, message text, JSON, except object, stack trace), break points on the real debugger and statement "
-                "separation under comments are tested on every run."),
+                "column unless the last newline before it ended a # comment - then exactly the column measured from that comment's line start "
+                "(token_positions_true_partial, stale_column_exact; negative witness proved); Pos IS the token's first character "
+                "(token_starts_at_first_character, token_text_at_pos; comment tokens: first byte of the comment text, opener directly before); "
+                "EOF only at the end with the line of the end of input, Pos strictly increasing, lines never decreasing (token_list_shape, "
+                "lines_monotone, eof_line_true); the lexer always terminates with EOF or an error token, no fuel runs out (lexer_always_closes); "
+                "errors, messages, stack traces, the except object and break point keys copy Lline/Lpos of one token (errors_carry_token_pos: "
+                "three-valued go/ast fact regenerated on every run, Lean obligation). Model tied to parser/lexer.go by an exhaustive-for-short / "
+                "random-for-long differential run and a code point sweep; error positions (fields, message text, JSON, except object, stack "
+                "trace), break points on the real debugger and statement separation under comments are tested on every run."),
     level_note=("Trusted: Lean kernel + propext/Classical.choice/Quot.sound; the correspondence harness. Known finding hash-comment-column "
                 "(pinned by TestObjectInstantiation) is reported, any other wrong position is a violation."),
 )
